@@ -1813,17 +1813,29 @@ fn inject_define_component_option(call: &mut CallExpr, name: &'static str, value
         Some(Expr::Object(object)) => {
             if !object.props.iter().any(|prop| {
                 prop.as_prop()
-                    .and_then(|prop| prop.as_key_value())
-                    .and_then(|key_value| key_value.key.as_ident())
-                    .map(|ident| ident.sym == name)
+                    .map(|prop| match &**prop {
+                        Prop::KeyValue(KeyValueProp { key, .. })
+                        | Prop::Getter(GetterProp { key, .. })
+                        | Prop::Method(MethodProp { key, .. }) => match key {
+                            PropName::Ident(ident) => ident.sym == name,
+                            PropName::Str(str) => str.value == name,
+                            _ => false,
+                        },
+                        Prop::Shorthand(ident) => ident.sym == name,
+                        _ => false,
+                    })
                     .unwrap_or_default()
             }) {
-                object
-                    .props
-                    .push(PropOrSpread::Prop(Box::new(Prop::KeyValue(KeyValueProp {
-                        key: PropName::Ident(quote_ident!(name)),
-                        value: Box::new(value),
-                    }))));
+                let prop = PropOrSpread::Prop(Box::new(Prop::KeyValue(KeyValueProp {
+                    key: PropName::Ident(quote_ident!(name)),
+                    value: Box::new(value),
+                })));
+                if object.props.iter().any(|prop| prop.is_spread()) {
+                    // whatever the spread supplies has to win over the derived option
+                    object.props.insert(0, prop);
+                } else {
+                    object.props.push(prop);
+                }
             }
         }
         Some(..) => {
